@@ -1097,13 +1097,7 @@ def execute (cmd : Cmd) : EM Status := do
   | .selfInsert n c => do editInsert S U cfg c n; pure .proceed
   | .insert n text => do editYank S U cfg text .before n; pure .proceed
   | .move .beginningOfLine => do editMove S U cfg (LB.moveHome S U); pure .proceed
-  | .move .viFirstPrint => do
-    editMove S U cfg (LB.moveHome S U)
-    let l ← getLine
-    match l.buf.head? with
-    | some c => if U.ws c then editMove S U cfg (LB.moveToNextWord S U .start .big 1)
-    | none => pure ()
-    pure .proceed
+  | .move .viFirstPrint => do editMove S U cfg (LB.moveToFirstPrint S U); pure .proceed
   | .move (.backwardChar n) => do editMove S U cfg (LB.moveBackward S U n); pure .proceed
   | .replaceChar n c => do editReplaceChar S U cfg c n; pure .proceed
   | .replace mvt text => do
